@@ -641,6 +641,10 @@ class Inliner:
                 split = self._split_boolop(s, mod, enclosing)
                 if split is not None:
                     return split
+        if call is None or self._resolve(call, mod, enclosing) is None:
+            hoisted = self._hoist_nested(s, mod, enclosing, names)
+            if hoisted is not None:
+                return hoisted
         if call is None:
             return None
         r = self._resolve(call, mod, enclosing)
@@ -732,6 +736,44 @@ class Inliner:
             new.lineno = new.col_offset = 0
             dst.body.insert(pos, ast.fix_missing_locations(new))
             self.log.append(f"{mod}: import of `{name}` added for code inlined from {h.module}")
+
+    def _hoist_nested(self, s, mod, enclosing, names):
+        """`xs.extend(helper(a))` / `y = f(helper(a))` with a helper that has no expression form: the call is given a name first
+        (`tmp = helper(a)`), so that it stands alone and can be inlined as statements.  Only calls that are evaluated
+        unconditionally by the statement are moved (not under `and`/`or`, a conditional expression, a lambda or a comprehension)."""
+        if not isinstance(s, (ast.Expr, ast.Assign, ast.AugAssign, ast.AnnAssign, ast.Return)) or getattr(s, "value", None) is None:
+            return None
+        found = []
+
+        def visit(e, top):
+            if isinstance(e, (ast.Lambda, ast.ListComp, ast.SetComp, ast.DictComp, ast.GeneratorExp, ast.IfExp, ast.BoolOp)):
+                return
+            if isinstance(e, ast.Call) and not top:
+                r = self._resolve(e, mod, enclosing)
+                if r is not None and _as_expression(r[0]) is None and len(_body(r[0].node)) > 1:
+                    found.append(e)
+                    return
+            for c in ast.iter_child_nodes(e):
+                visit(c, False)
+
+        visit(s.value, True)
+        if not found:
+            return None
+        call = found[0]
+        tmp = f"_inl{next(_counter)}"
+
+        class Rep(ast.NodeTransformer):
+            def visit_Call(self, n):
+                if n is call:
+                    return ast.copy_location(ast.Name(id=tmp, ctx=ast.Load()), n)
+                self.generic_visit(n)
+                return n
+
+        s.value = Rep().visit(s.value)
+        names.add(tmp)
+        asg = ast.copy_location(ast.Assign(targets=[ast.Name(id=tmp, ctx=ast.Store())], value=call, lineno=s.lineno), s)
+        self.log.append(f"nested helper call given a name at {mod}:{getattr(s, 'lineno', 0)}")
+        return [asg, s]
 
     def _split_boolop(self, s: ast.If, mod, enclosing):
         """`if a or H(x): B else: C` with a helper H that has no expression form  ->  `if a: B else: (if H(x): B else: C)`
